@@ -11,6 +11,7 @@ import LarkVerif.Shape
 import LarkVerif.Scan
 import LarkVerif.Transform
 import LarkVerif.TransformEmbed
+import LarkVerif.Cache
 import Std.Data.HashMap
 /-! Line-protocol driver: one JSON request per stdin line (`{"op": ...}`), one JSON answer per stdout line.
     Runs the *executable definitions the theorems are about*.  Not part of the proof library. -/
@@ -339,6 +340,37 @@ def runTransform (j : Json) : Except String Json := do
   let stack := runStack f g (postOrder F) []
   pure (Json.mkObj [("recursive", Json.arr rec_.toArray), ("stack", Json.arr stack.reverse.toArray), ("instrs", natJ (postOrder F).length)])
 
+open CacheProto in
+def cacheEnv : Env := ⟨id, id, fun r => r.g * 1000 + r.imp, fun _ _ h => h, fun _ _ h => h⟩
+
+open CacheProto in
+def fileJ : File → Json
+  | .absent => Json.str "absent"
+  | .bad => Json.str "bad"
+  | .good h u p => Json.mkObj [("hdr", natJ h), ("used", natJ u), ("payload", natJ p)]
+
+open CacheProto in
+def runCache (j : Json) : Except String Json := do
+  let ops ← (← getArr j "ops").mapM fun o => do
+    let k ← getStr o "k"
+    let req : Except String Req := do pure ⟨← getNat o "g", ← getNat o "imp"⟩
+    match k with
+    | "open" => pure (Op.open_ (← req))
+    | "crash" => pure (Op.openCrash (← req))
+    | "truncate" => pure Op.truncate
+    | "delete" => pure Op.delete
+    | "foreign" => pure (Op.foreign (← req))
+    | _ => throw "cache op"
+  -- step by step, so that the file state after every operation is visible
+  let mut f := File.absent
+  let mut out : Array Json := #[]
+  for op in ops do
+    let (f', o) := step cacheEnv f op
+    f := f'
+    out := out.push (Json.mkObj [("file", fileJ f), ("served", match o with | some (_, p) => natJ p | none => Json.null)])
+  let whole := (run cacheEnv File.absent ops).2.map (fun ro => natJ ro.2)
+  pure (Json.mkObj [("steps", Json.arr out), ("served", Json.arr whole.toArray)])
+
 def handle (j : Json) : Except String Json := do
   let op ← getStr j "op"
   match op with
@@ -386,6 +418,7 @@ def handle (j : Json) : Except String Json := do
   | "lr_table" => runLrTable j
   | "shape" => runShape j
   | "embed" => runEmbed j
+  | "cache" => runCache j
   | "transform" => runTransform j
   | "scan" =>
     let n ← getNat j "n"
